@@ -354,8 +354,9 @@ inline void ensure_env(int argc, char **argv)
 	perror("execv");
 }
 
+inline std::string verif_root() { const char *r = getenv("VERIF_ROOT"); return r && *r ? r : "/verif"; }
 struct Args {
-	std::string replay, out, variant = "default", known_file = "/verif/KNOWN_FINDINGS.jsonl", replay_dir = "/verif/replays";
+	std::string replay, out, variant = "default", known_file = verif_root() + "/KNOWN_FINDINGS.jsonl", replay_dir = verif_root() + "/replays";
 	long cases = 1000; int size = 100; unsigned long seed = 1; std::string mode; bool verbose = false;
 };
 inline Args parse_args(int argc, char **argv)
